@@ -306,7 +306,10 @@ class Analyzer:
             st.sym_lb.setdefault(s, []).append(Poly.const(c))
         self.ret_states = []
         self.ctx = []
+        self.ov = []
+        self.in_index = 0
         out = self.exec(fn["body"], st)
+        self._decide_ov()
         summ = Summary(self.fname)
         summ.params = [(p["name"], p["type"]["qualType"]) for p in fn["params"]]
         for o in self.obls.values():
@@ -327,6 +330,35 @@ class Analyzer:
         nb = self.join_bounds(ob, ost, val, st)
         ns = self.join(ost.copy(), st.copy())
         self.stores[arr] = (nb, ns if ns is not None else st.copy())
+
+    def _decide_ov(self):
+        """32-bit products: fine inside a proven subscript index (index + 1 <= extent < 2^31 by assumption), when the
+        bounds are numeric and small, or when the product is bounded by the extent of a block of this function"""
+        LIM = 2 ** 31 - 1
+        extents = list(self.local_arrays.values())
+        for o in self.obls.values():
+            if o.kind == "B" and o.side == "hi" and o.req:
+                extents += list(o.req)
+        seen = {}
+        for node, txt, b, st, inidx in self.ov:
+            key = (node["_line"], txt)
+            ok = inidx
+            why = "part of an array index (bounded by the block size)" if inidx else ""
+            if not ok and b.lbs and b.ubs:
+                if any(u.is_const() and u.cval() <= LIM for u in b.ubs) and any(l.is_const() and l.cval() >= -LIM for l in b.lbs):
+                    ok, why = True, "numeric bounds"
+            if not ok and b.ubs and any(self.prover.nonneg(l, st) for l in b.lbs):
+                for u in b.ubs:
+                    for ext in extents:
+                        if self.prover.nonneg(ext - u, st):
+                            ok, why = True, f"bounded by a block size ({ext})"
+                            break
+                    if ok:
+                        break
+            prev = seen.get(key)
+            seen[key] = (ok if prev is None else (prev[0] and ok), why, node, b)
+        for (line, txt), (ok, why, node, b) in seen.items():
+            self._ob("OV", node, txt, None, "mul", ok, detail=why if ok else f"32-bit product with range {b} is not bounded by a block size or by constants: signed overflow is undefined")
 
     def _newsym(self, name):
         self.order[name] = self.nsym
@@ -511,7 +543,10 @@ class Analyzer:
             if op == "-":
                 return Bounds([x - y for x in a.lbs for y in b.ubs], [x - y for x in a.ubs for y in b.lbs])
             if op == "*":
-                return self.mul(a, b, st)
+                r = self.mul(a, b, st)
+                if e["type"]["qualType"].replace("const ", "").strip() in ("int", "short", "unsigned int") and not self.quiet:
+                    self.ov.append((e, text(e), r, st.copy(), getattr(self, "in_index", 0) > 0))
+                return r
             if op in ("/", "%"):
                 nz = any(self.prover.nonneg(lb - 1, st) for lb in b.lbs) or \
                     any(self.prover.nonneg(-ub - 1, st) for ub in b.ubs)
@@ -627,11 +662,24 @@ class Analyzer:
                     if bx is None:
                         bx = self.fint(x, st)
                     if bx is not None:
+                        import math
+                        from fractions import Fraction as _F
+                        cf = _F(c).limit_denominator(10 ** 12)
+
+                        def sc(polys, up):
+                            out = []
+                            for q in polys:
+                                if q.is_const():
+                                    v = q.cval() * cf
+                                    out.append(_p(math.ceil(v) if up else math.floor(v)))
+                            return out
                         if c >= 0:
-                            # 0 <= c <= 1: the product lies between 0 and x
-                            zero = (_p(0),)
-                            return Bounds(tuple(bx.lbs) + zero if False else self._minzero(bx.lbs), self._maxzero(bx.ubs))
-                        return Bounds(self._minzero([-u for u in bx.ubs]), self._maxzero([-l for l in bx.lbs]))
+                            lo = sc(bx.lbs, False) or list(self._minzero(bx.lbs))
+                            hi = sc(bx.ubs, True) or list(self._maxzero(bx.ubs))
+                            return Bounds(tuple(lo), tuple(hi))
+                        lo = sc(bx.ubs, False) or list(self._minzero([-u for u in bx.ubs]))
+                        hi = sc(bx.lbs, True) or list(self._maxzero([-l for l in bx.lbs]))
+                        return Bounds(tuple(lo), tuple(hi))
         return None
 
     def _minzero(self, lbs):
@@ -713,7 +761,9 @@ class Analyzer:
                 self.access(e, arr, Bounds.exact(0), st, text(e))
             return TOP
         base, idx = e["inner"]
+        self.in_index = getattr(self, "in_index", 0) + 1
         ib = self.ev(idx, st)
+        self.in_index -= 1
         sb = strip(base)
         if sb.get("kind") == "ArraySubscriptExpr":     # 2-d local: row then column
             self.load(sb, st)
